@@ -73,13 +73,14 @@ theorem cmp_ne_lt {a b : Int} (h : compare a b ≠ .lt) : b ≤ a := by
 /-- integer-level specification of the rounding step of `sqrt` (`Y = S·D + low`, `D = B^k`):
     `root²·D ≤ Y < (root+1)²·D`; the result is `root` flagged exact iff `Y = root²·D`, otherwise
     `root + a` with `a = 0` (`NoOp`) or `a = 1` (`AddOne`) as the mode prescribes -/
-theorem sqrtRound_spec (B : Nat) (hB : 2 ≤ B) (m : Mode) (S low : Int) (k : Nat) (hS : 0 ≤ S) (hl0 : 0 ≤ low)
+theorem sqrtRound_spec (B : Nat) (hB : 2 ≤ B) (m : Mode) (sr : Nat → Nat × Nat) (hsr : SqrtRemOk sr)
+    (S low : Int) (k : Nat) (hS : 0 ≤ S) (hl0 : 0 ≤ low)
     (hlk : low < ((B ^ k : Nat) : Int)) :
     ∃ root : Int, 0 ≤ root ∧
       root * root * ((B ^ k : Nat) : Int) ≤ S * ((B ^ k : Nat) : Int) + low ∧
       S * ((B ^ k : Nat) : Int) + low < (root + 1) * (root + 1) * ((B ^ k : Nat) : Int) ∧
-      ((sqrtRound B m S low k = (root, none) ∧ S * ((B ^ k : Nat) : Int) + low = root * root * ((B ^ k : Nat) : Int)) ∨
-       (∃ adj : Rounding, sqrtRound B m S low k = (root + rInt adj, some adj) ∧
+      ((sqrtRound B m sr S low k = (root, none) ∧ S * ((B ^ k : Nat) : Int) + low = root * root * ((B ^ k : Nat) : Int)) ∨
+       (∃ adj : Rounding, sqrtRound B m sr S low k = (root + rInt adj, some adj) ∧
           (adj = .NoOp ∨ adj = .AddOne) ∧
           root * root * ((B ^ k : Nat) : Int) < S * ((B ^ k : Nat) : Int) + low ∧
           ((m = .zero ∨ m = .down) → adj = .NoOp) ∧ ((m = .up ∨ m = .away) → adj = .AddOne) ∧
@@ -90,27 +91,30 @@ theorem sqrtRound_spec (B : Nat) (hB : 2 ≤ B) (m : Mode) (S low : Int) (k : Na
     have : 0 < B ^ k := Nat.pow_pos (by omega)
     exact_mod_cast this
   unfold sqrtRound
+  dsimp only
   generalize ((B ^ k : Nat) : Int) = D at *
   have hSn : ((S.natAbs : Nat) : Int) = S := by omega
-  have h1 : ((Nat.sqrt S.natAbs * Nat.sqrt S.natAbs : Nat) : Int) ≤ ((S.natAbs : Nat) : Int) := by
-    exact_mod_cast Nat.sqrt_le S.natAbs
-  have h2 : ((S.natAbs : Nat) : Int) < (((Nat.sqrt S.natAbs).succ ^ 2 : Nat) : Int) := by
-    exact_mod_cast Nat.lt_succ_sqrt' S.natAbs
-  push_cast at h1 h2
-  rw [abs_of_nonneg hS] at h1 h2
-  generalize hroot : ((Nat.sqrt S.natAbs : Nat) : Int) = root at *
+  obtain ⟨c1, c2, c3⟩ := hsr S.natAbs
+  have h1 : (((sr S.natAbs).1 * (sr S.natAbs).1 : Nat) : Int) ≤ ((S.natAbs : Nat) : Int) := by
+    exact_mod_cast c1
+  have h2 : ((S.natAbs : Nat) : Int) < ((((sr S.natAbs).1 + 1) * ((sr S.natAbs).1 + 1) : Nat) : Int) := by
+    exact_mod_cast c2
+  have h3 : ((((sr S.natAbs).1 * (sr S.natAbs).1 + (sr S.natAbs).2 : Nat)) : Int) = ((S.natAbs : Nat) : Int) := by
+    exact_mod_cast c3
+  push_cast at h1 h2 h3
+  rw [abs_of_nonneg hS] at h1 h2 h3
+  generalize hroot : (((sr S.natAbs).1 : Nat) : Int) = root at *
+  have hremv : (((sr S.natAbs).2 : Nat) : Int) = S - root * root := by omega
   have hr0 : 0 ≤ root := by rw [← hroot]; exact Int.natCast_nonneg _
   have hlow : root * root * D ≤ S * D + low := by
     have := Int.mul_le_mul_of_nonneg_right h1 (le_of_lt hD); omega
   have hupp : S * D + low < (root + 1) * (root + 1) * D := by
-    have h2' : S + 1 ≤ (root + 1) * (root + 1) := by
-      have : (root + 1) ^ 2 = (root + 1) * (root + 1) := by ring
-      omega
+    have h2' : S + 1 ≤ (root + 1) * (root + 1) := by omega
     have := Int.mul_le_mul_of_nonneg_right h2' (le_of_lt hD)
     have e : (S + 1) * D = S * D + D := by ring
     omega
   refine ⟨root, hr0, hlow, hupp, ?_⟩
-  simp only [hSn]
+  simp only [hremv]
   have hrem0 : 0 ≤ S - root * root := by omega
   by_cases hex : S - root * root = 0 ∧ low = 0
   · left
@@ -157,6 +161,7 @@ theorem sqrtScale_spec (B : Nat) (hB : 2 ≤ B) (p : Nat) (hp : 1 ≤ p) (x : FR
     (x.signif = 0 → (sqrtScale B p x).1 = 0 ∧ (sqrtScale B p x).2.1 = 0) := by
   have hB0 : 0 < B := by omega
   unfold sqrtScale
+  try simp only [shlDigits_eq, shrDigits_eq]
   obtain ⟨d, hd⟩ : ∃ d, digitsI B x.signif = d := ⟨_, rfl⟩
   simp only [FRepr.digits, hd]
   -- the exponent after scaling is even
@@ -350,7 +355,7 @@ theorem contractSqrt_assemble (B : Nat) (hB : 2 ≤ B) (m : Mode) (p : Nat) (hp 
       subst hρ'
       have hlt : (ρ : ℚ) * u * ((ρ : ℚ) * u) < xq := by
         rw [hr]; exact slt _ (by rw [x0]; omega)
-      refine ⟨by positivity, ⟨(fun h => by cases h), fun h => absurd h (ne_of_lt hlt)⟩, fun _ => ⟨e, ?_, ?_⟩, ?_, by simp, by simp⟩
+      refine ⟨by positivity, ⟨(fun h => by cases h), fun h => absurd h (ne_of_lt hlt)⟩, fun _ => ⟨e, ?_, ?_, ⟨_, by rw [he]⟩⟩, ?_, by simp, by simp⟩
       · have : bpowQ B (e + p - 1) = ((2 * ((B ^ (p - 1) : Nat) : Int) : Int) : ℚ) / 2 * u := by
           have e1 : e + p - 1 = ((p - 1 : Nat) : Int) + e := by push_cast; omega
           rw [e1, bpowQ_add B hB0, bpowQ_nat, he]; push_cast; ring
@@ -397,7 +402,7 @@ theorem contractSqrt_assemble (B : Nat) (hB : 2 ≤ B) (m : Mode) (p : Nat) (hp 
       have ep2 : 2 * (root + 1) + 2 = 2 * root + 4 := by ring
       have hgt : xq < ((root + 1 : Int) : ℚ) * u * (((root + 1 : Int) : ℚ) * u) := by
         rw [hr, e0]; exact xlt _ (by rw [xp2]; omega)
-      refine ⟨by positivity, ⟨(fun h => by cases h), fun h => absurd h (ne_of_gt hgt)⟩, fun _ => ⟨e, ?_, ?_⟩, ?_, fun _ => hgt, by simp⟩
+      refine ⟨by positivity, ⟨(fun h => by cases h), fun h => absurd h (ne_of_gt hgt)⟩, fun _ => ⟨e, ?_, ?_, ⟨_, by rw [he]⟩⟩, ?_, fun _ => hgt, by simp⟩
       · have : bpowQ B (e + p - 1) = ((2 * ((B ^ (p - 1) : Nat) : Int) : Int) : ℚ) / 2 * u := by
           have e1 : e + p - 1 = ((p - 1 : Nat) : Int) + e := by push_cast; omega
           rw [e1, bpowQ_add B hB0, bpowQ_nat, he]; push_cast; ring
@@ -537,9 +542,9 @@ theorem andThenFlag_none (f : Option Rounding) : andThenFlag f none = f := by
 /-- **`Context::sqrt` honours the contract** (`p ≥ 1`, non-negative operand of any length): the result
     `r ≥ 0` is flagged `Exact` iff `r² = x`; otherwise `√x` is within one ulp (half an ulp for the nearest
     modes) of `r` on the side the mode prescribes — all comparisons on squares. -/
-theorem ctxSqrt_contract (B : Nat) (hB : 2 ≤ B) (m : Mode) (c : Coarse) (p : Nat) (hp : 1 ≤ p) (x : FRepr)
-    (hs : 0 ≤ x.signif) :
-    ∃ r, ctxSqrt B m c p x = .ok r ∧ ContractSqrt B m p (x.toRat B) (r.1.toRat B) r.2 := by
+theorem ctxSqrt_contract (B : Nat) (hB : 2 ≤ B) (m : Mode) (c : Coarse) (sr : Nat → Nat × Nat) (hsr : SqrtRemOk sr)
+    (p : Nat) (hp : 1 ≤ p) (x : FRepr) (hs : 0 ≤ x.signif) :
+    ∃ r, ctxSqrt B m c sr p x = .ok r ∧ ContractSqrt B m p (x.toRat B) (r.1.toRat B) r.2 := by
   have hB0 : 0 < B := by omega
   have hp0 : p ≠ 0 := by omega
   have hneg : ¬ x.signif < 0 := by omega
@@ -547,7 +552,7 @@ theorem ctxSqrt_contract (B : Nat) (hB : 2 ≤ B) (m : Mode) (c : Coarse) (p : N
   simp only [hp0, hneg, if_false]
   obtain ⟨hS0, hl0, hlk, hval, hdig, hzero⟩ := sqrtScale_spec B hB p hp x hs
   generalize sqrtScale B p x = sc at *
-  obtain ⟨root, hr0, hlow, hupp, hres⟩ := sqrtRound_spec B hB m sc.1 sc.2.1 sc.2.2.1 hS0 hl0 hlk
+  obtain ⟨root, hr0, hlow, hupp, hres⟩ := sqrtRound_spec B hB m sr hsr sc.1 sc.2.1 sc.2.2.1 hS0 hl0 hlk
   have hD : (0 : Int) < ((B ^ sc.2.2.1 : Nat) : Int) := by
     have : 0 < B ^ sc.2.2.1 := Nat.pow_pos hB0
     exact_mod_cast this
@@ -620,5 +625,15 @@ theorem ctxSqrt_contract (B : Nat) (hB : 2 ≤ B) (m : Mode) (c : Coarse) (p : N
     rw [FRepr.new_value B hB0]
     exact contractSqrt_assemble B hB m p hp _ _ root hD _ _ hu sc.2.2.2 rfl hval hr0 hlow hupp hdig' (some adj)
       (root + rInt adj) (Or.inr ⟨adj, rfl, rfl, hadj, hstrict, hzd, hua, hhalf⟩)
+
+/-- core `Nat.sqrt` (what the driver runs) meets the `sqrt_rem` contract -/
+theorem natSqrtRem_ok : SqrtRemOk natSqrtRem := by
+  intro n
+  unfold natSqrtRem
+  dsimp only
+  have h1 := Nat.sqrt_le n
+  have h2 := Nat.lt_succ_sqrt' n
+  simp only [Nat.succ_eq_add_one, Nat.pow_two] at h2
+  exact ⟨h1, h2, by omega⟩
 
 end Dashu.Model.Float
